@@ -168,7 +168,7 @@ func Unroll(p *Prog) (*Prog, UnrollStats, error) {
 				if err != nil {
 					return nil, fmt.Errorf("FOR count: %w", err)
 				}
-				if !v.IsInt64() || v.Int64() < 0 || v.Int64() > 1000 {
+				if !v.IsInt64() || v.Int64() < 0 || v.Int64() > 64 {
 					return nil, ErrOutOfDomain
 				}
 				n := int(v.Int64())
@@ -190,6 +190,9 @@ func Unroll(p *Prog) (*Prog, UnrollStats, error) {
 						return nil, err
 					}
 					emitted = append(emitted, sub...)
+					if len(emitted) > 4000 {
+						return nil, ErrOutOfDomain
+					}
 				}
 				if len(x.Labels) > 0 {
 					attached := false
